@@ -133,6 +133,12 @@ func runSysFault(x *X) {
 			ex.chunked = c.Intn(3, "chunked") == 0
 		}
 		ex.newConn = c.Intn(3, "newconn") == 0
+		if ex.method == "GET" && c.Intn(6, "upgrade-request") == 0 {
+			// a protocol-upgrade request (Helios exempts these from the handler timeout, tunnels
+			// being long-lived): whatever the backend does to it, the backend timeouts still apply
+			ex.hdr = append(ex.hdr, hdrKV{"Connection", "Upgrade"}, hdrKV{"Upgrade", "websocket"})
+			x.Probe("upgrade-request-under-faults")
+		}
 		if o.breaker != nil && c.Intn(3, "pause-past-breaker-timeout") == 0 {
 			// let an open breaker reach half-open, so that this (possibly faulty) exchange is a trial
 			ex.pause = time.Duration(o.breaker.TimeoutSeconds)*time.Second + 100*time.Millisecond
@@ -256,6 +262,11 @@ func runSysFault(x *X) {
 		}
 		if d := ex.endedAt - ex.startedAt; d > bound {
 			x.Violate("C03", "C03/request-exceeded-timeouts{"+faults[i]+"}", "exchange %d (fault %s) took %v, configured bound %v", ex.id, faults[i], d, bound)
+		} else if hb := 2*time.Duration(to.BackendDial+to.BackendRead)*time.Second + 2*time.Second; faults[i] == "hang-headers" && d > hb {
+			// a backend that takes the request and never answers is what backend_read is for: the
+			// request ends when that timeout fires (twice the dial+read allowance covers one
+			// transparent retry on a stale pooled connection), not at some later, larger timeout
+			x.Violate("C03", "C03/backend-timeout-not-applied{hang-headers}", "exchange %d: the backend never sent a response head; the request ended after %v although backend_dial=%ds and backend_read=%ds (allowed here: %v)", ex.id, d, to.BackendDial, to.BackendRead, hb)
 		}
 		if faults[i] == "none" && ex.got != nil && ex.got.err == "" && ex.got.status == 200 {
 			x.Probe("clean-exchange-ok")
